@@ -51,6 +51,8 @@ def enumCanBeProcessed (lc : EnumLastCase) (os : List Obj) (m : Marks) (e : Stri
 structure St where
   marks : Marks
   schemaUnprocessed : Bool
+  /-- `unknowncnt` of `checkTypes`: reset to 0 before every sweep, the loop goes on while it is > 0 -/
+  unknown : Int := 0
 
 /-- `checkItem( t, parent, schema, …, noSel )`: the new state and whether `parent` became unprocessable -/
 def checkItem (lc : EnumLastCase) (os : List Obj) (s : St) (parent item : String) (noSel : Bool) : St × Bool :=
@@ -59,12 +61,17 @@ def checkItem (lc : EnumLastCase) (os : List Obj) (s : St) (parent item : String
   | some o =>
     if o.isEnum then
       if !enumCanBeProcessed lc os s.marks item then
-        ({ marks := setMark s.marks parent .cantprocess, schemaUnprocessed := true }, true)
+        ({ marks := setMark s.marks parent .cantprocess, schemaUnprocessed := true,
+           unknown := if s.marks parent = .notknown then s.unknown - 1 else s.unknown }, true)
       else (s, false)
     else if o.isSelect && !noSel then
       match s.marks item with
-      | .cantprocess => ({ marks := setMark s.marks parent .cantprocess, schemaUnprocessed := true }, true)
-      | .notknown => ({ s with marks := setMark s.marks parent .notknown }, false)
+      | .cantprocess => ({ marks := setMark s.marks parent .cantprocess, schemaUnprocessed := true,
+                           unknown := if s.marks parent = .notknown then s.unknown - 1 else s.unknown }, true)
+      | .notknown =>
+        -- "we haven't processed i this pass": lower parent to NOTKNOWN (once) and count it
+        if s.marks parent ≠ .notknown then ({ s with marks := setMark s.marks parent .notknown, unknown := s.unknown + 1 }, false)
+        else (s, false)
       | _ => (s, false)
     else (s, false)
 
@@ -93,6 +100,20 @@ def sweeps (lc : EnumLastCase) (os order : List Obj) : Nat → St → St
   | n + 1, s => sweeps lc os order n (sweep lc os order s)
 
 def initial : St := { marks := fun _ => .notknown, schemaUnprocessed := false }
+
+/-- the state after `k` iterations of `do { unknowncnt = 0; <sweep> } while( … )` -/
+def loopState (lc : EnumLastCase) (os order : List Obj) : Nat → St
+  | 0 => initial
+  | k + 1 => sweep lc os order { loopState lc os order k with unknown := 0 }
+
+/-- the loop may stop after its `k`-th iteration (`k ≥ 1`) -/
+def loopMayExit (l : SweepLoop) (k : Nat) (s : St) : Prop :=
+  match l with
+  | .untilSettled => s.unknown ≤ 0
+  | .bounded n => s.unknown ≤ 0 ∨ n ≤ k
+
+/-- nothing is left undecided: every object of the sweep order was given a verdict -/
+def Settled (order : List Obj) (s : St) : Prop := ∀ o ∈ order, s.marks o.name ≠ .notknown
 
 /-- the suffixes `SCHEMAprint` is called with for the schema -/
 def suffixes (s : St) : List Nat := if s.schemaUnprocessed then [1, 2] else [0]
